@@ -41,6 +41,8 @@ type Engine struct {
 	globals   map[*ssa.Global]*globalInfo
 	initDone  map[*ssa.Package]bool
 	typeNames map[string]types.Type
+	constBig  map[*Term]*big.Int
+	constBigInit map[*Term]string
 	globalsScanned bool
 	addrTaken map[*ssa.Function]bool
 }
@@ -56,7 +58,7 @@ func NewEngine(repo string, patterns []string) (*Engine, error) {
 	eng := &Engine{repo: repo, spkgs: map[string]*ssa.Package{}, funcIDs: map[*ssa.Function]int{}, closures: map[*Term]*closureInfo{},
 		closureAddrs: map[closureKey]*Addr{}, measures: map[*loopInfo]*Term{}, inlineExternal: map[string]bool{},
 		implCache: map[string][]*ssa.Function{}, ctrCache: map[*ssa.Function]*Contract{}, globals: map[*ssa.Global]*globalInfo{},
-		initDone: map[*ssa.Package]bool{}, typeNames: map[string]types.Type{}}
+		initDone: map[*ssa.Package]bool{}, typeNames: map[string]types.Type{}, constBig: map[*Term]*big.Int{}, constBigInit: map[*Term]string{}}
 	cfg := &packages.Config{Mode: packages.LoadAllSyntax, Dir: repo, BuildFlags: []string{"-tags=verif", "-mod=mod"},
 		Env: append(os.Environ(), "GOFLAGS=-mod=mod", "GOPROXY=off")}
 	pkgs, err := packages.Load(cfg, patterns...)
@@ -418,8 +420,6 @@ func (eng *Engine) loadGlobal(fr *Frame, st *State, g *ssa.Global, a *Addr) *Ter
 		eng.evalInit(g.Pkg)
 		if gi.known {
 			if gi.bigval != nil {
-				// value of the pointee at function entry
-				fc.assume(True, Eq(Select(fc.heapInit("big", bigSort), gi.term), IntLit(gi.bigval)))
 				fc.assume(True, And(Op(">", SBool, gi.term, IntLit64(0)), Op("<=", SBool, gi.term, fc.entry.alloc)))
 			}
 			return gi.term
@@ -486,8 +486,16 @@ func (eng *Engine) evalInit(p *ssa.Package) {
 			bv := Select(fc.get(exit, "big", bigSort), v)
 			if bv.IsLit() && bv.val != nil && v != NilRef {
 				gi.known = true
-				gi.term = Const("gref!"+sanitize(p.Pkg.Path()+"."+g.Name()), SRef)
+				// globals holding the same pointer share one constant; different allocations differ
+				gi.term = Const(fmt.Sprintf("gref!%s.%s#%s", sanitize(p.Pkg.Path()), g.Name(), v.name), SRef)
+				for t, old := range eng.constBigInit {
+					if old == p.Pkg.Path()+"#"+v.name {
+						gi.term = t
+					}
+				}
+				eng.constBigInit[gi.term] = p.Pkg.Path() + "#" + v.name
 				gi.bigval = bv.val
+				eng.constBig[gi.term] = bv.val
 			}
 		case isErrorType(pt):
 			if v.op == "app" && v.name == "mk_Iface" && v.args[0].IsLit() {
@@ -511,5 +519,5 @@ func (fr *Frame) execInit(st *State) *State {
 
 func (eng *Engine) newFuncCtx(name string) *FuncCtx {
 	return &FuncCtx{eng: eng, fn: name, heapSorts: map[string]Sort{}, notes: map[string]bool{}, inlined: map[string]bool{}, opaque: map[string]bool{},
-		usedCtr: map[string]bool{}, trusted: map[string]bool{}, siteN: map[string]int{}}
+		usedCtr: map[string]bool{}, trusted: map[string]bool{}, siteN: map[string]int{}, usedConsts: map[*Term]bool{}}
 }
